@@ -35,6 +35,17 @@ type sym struct {
 // equal iff the doubles are bit-identical.
 type fpstr struct{ f *sym }
 
+// decstr is the decimal text of n x 10^-scale for a symbolic integer n and scale >= 1 (nd.Decimal: sign,
+// integer digits, '.', exactly scale fraction digits). Opaque like fpstr, except that
+//   - strconv.ParseFloat of it is fp.div RNE (to_fp n) (to_fp 10^scale): both operands are exact doubles
+//     (|n| < 2^53, scale <= 22), IEEE division rounds the exact quotient correctly, and ParseFloat returns the
+//     correctly rounded double of the decimal it reads - the same number;
+//   - two such texts are equal iff scale and integer are equal (the rendering is canonical).
+type decstr struct {
+	n     *sym
+	scale int
+}
+
 func (s *sym) String() string { return s.e }
 
 // sstr is a string (or the contents of a symbolic string) of concrete length
@@ -43,7 +54,7 @@ type sstr []value
 
 func isSym(v value) bool {
 	switch v.(type) {
-	case *sym, sstr, numstr, fpstr:
+	case *sym, sstr, numstr, fpstr, decstr:
 		return true
 	}
 	return false
@@ -259,6 +270,8 @@ func toSstr(v value) sstr {
 		return materialise(x)
 	case fpstr:
 		panic(unsupported("text of a formatted symbolic double is needed"))
+	case decstr:
+		panic(unsupported("the characters of a symbolic decimal numeral are needed"))
 	case string:
 		r := make(sstr, len(x))
 		for i := 0; i < len(x); i++ {
@@ -286,6 +299,22 @@ func strEq(a, b value) value {
 	if fa, ok := a.(fpstr); ok {
 		if fb, ok := b.(fpstr); ok {
 			return simplifyBool(mkBool("(= " + fa.f.e + " " + fb.f.e + ")"))
+		}
+	}
+	if da, ok := a.(decstr); ok {
+		if db, ok := b.(decstr); ok {
+			if da.scale != db.scale {
+				return false
+			}
+			return symBinop(token.EQL, nil, da.n, db.n)
+		}
+		if _, ok := b.(string); ok && b.(string) == "" {
+			return false
+		}
+	}
+	if _, ok := b.(decstr); ok {
+		if as, ok := a.(string); ok && as == "" {
+			return false
 		}
 	}
 	if na, ok := a.(numstr); ok {
